@@ -2,7 +2,7 @@
 import random
 from . import common as C, vec as V
 
-CMP = {'less': 0, 'greater': 1, 'mod': 2, 'stateful': 3, 'mix': 4}
+CMP = {'less': 0, 'greater': 1, 'mod': 2, 'stateful': 3, 'mix': 4, 'transp': 5}
 UVEC = {'amc': 0, 'small': 1, 'fixed': 2, 'std': 3}
 
 class SetCfg:
@@ -41,12 +41,16 @@ def keys(rng, k, dom):
 def gen_history(rng, cfg, nops, dom=20, ops_filter=None, bulk_max=8):
     P = cfg.pool
     W = [('ins', 12), ('insm', 4), ('emp', 4), ('insh', 8), ('emph', 3), ('insr', 6), ('insl', 1), ('era', 8), ('erap', 5),
-         ('erar', 4), ('clr', 1), ('find', 5), ('has', 3), ('cnt', 2), ('mrg', 4), ('xfer', 4), ('extp', 2), ('swp', 2),
+         ('erar', 4), ('clr', 1), ('find', 5), ('has', 3), ('cnt', 2), ('mrg', 4), ('mrgx', 3), ('xfer', 4), ('extp', 2), ('swp', 2),
          ('cpy', 2), ('mov', 2), ('cmp', 3), ('iter', 3), ('eloop', 3)]
     if cfg.impl == 'flat':
         W += [('lb', 4), ('ub', 4), ('eqr', 3), ('rngc', 2)]
         if cfg.uvec != 'fixed':
             W += [('fromv', 2), ('asgv', 2), ('steal', 1)]
+    if cfg.cmp == 'transp':
+        W += [('hfind', 5), ('hhas', 4), ('hcnt', 6)]
+        if cfg.impl == 'flat':
+            W += [('hlb', 4), ('hub', 4)]
     if ops_filter:
         W = [w for w in W if ops_filter(w[0])]
     names = [w[0] for w in W]; weights = [w[1] for w in W]
@@ -57,9 +61,11 @@ def gen_history(rng, cfg, nops, dom=20, ops_filter=None, bulk_max=8):
         v = rng.randrange(0, dom)
         if op in ('ins', 'insm', 'emp', 'era', 'find', 'has', 'cnt', 'lb', 'ub', 'eqr'):
             lines.append(f'{op} {c} {v}')
+        elif op in ('hfind', 'hhas', 'hcnt', 'hlb', 'hub'):
+            lines.append(f'{op} {c} {rng.randrange(0, dom // 4 + 2)}')
         elif op in ('insh', 'emph'):
             lines.append(f'{op} {c} {rng.randrange(0, 64)} {v}')
-        elif op in ('insr', 'insl', 'fromv', 'asgv', 'rngc'):
+        elif op in ('insr', 'insl', 'fromv', 'asgv', 'rngc', 'mrgx'):
             k = rng.randrange(0, bulk_max + 1)
             if rng.random() < 0.15:
                 k = rng.randrange(17, 40)         # longer than the introsort threshold
